@@ -130,6 +130,13 @@ let named_of_sexp (s : sexp) : named =
         | L [A "l"; h] -> lo := hx h :: !lo
         | L [A "e"; h] -> en := hx h :: !en
         | L [A "h"; h] -> he := Some (text_doc (hx h))
+        | L (A "hd" :: frs) ->
+          he := Some (List.map (function
+              | L [A "text"; h] -> TText (SText, hx h)
+              | L [A "literal"; h] -> TText (SLiteral, hx h)
+              | L [A "emphasis"; h] -> TText (SEmphasis, hx h)
+              | L [A "invalid"; h] -> TText (SInvalid, hx h)
+              | _ -> failwith "bad fragment") frs)
         | _ -> failwith "bad named field") fields;
     { n_short = List.rev !sh; n_long = List.rev !lo; n_env = List.rev !en; n_help = !he }
   | _ -> failwith "bad named"
